@@ -37,7 +37,23 @@ Record C18_obs := mkObs {
      parked inside another subscriber's handler: its deliveries are exactly what
      the removed subscription's handlers received after RemoveEventHandlers() had
      RETURNED (everything else is in the Event step). *)
-Record C18_case := mkC18 { c_nres : Z; c_steps : list C18_obs; c_windows : list Z }.
+(* c_hung: index (in the scenario's operation list) of the operation that did not
+   return within the harness's watchdog bound, -1 if every operation returned;
+   c_steps then holds the operations completed before it.
+   c_anomalies: things the harness saw of the code under test that are not part
+   of a step: 1 = after k concurrent Resource() calls that started one informer
+   the factory's reference count is not k; 2 = Resource() for a resource unknown
+   to discovery succeeded; 4 = a panic escaped an operation of the scenario. *)
+Record C18_case := mkC18 { c_nres : Z; c_steps : list C18_obs; c_windows : list Z;
+                           c_hung : Z; c_anomalies : list Z }.
+
+Definition anomaly_name (z : Z) : string :=
+  match z with
+  | 1%Z => "refcount-not-subscriber-count"
+  | 2%Z => "failed-subscribe-succeeded"
+  | 4%Z => "scenario-panicked"
+  | _ => "harness-anomaly"
+  end.
 
 (* ---- multisets of deliveries ---- *)
 Definition note_eqb (a b : note) : bool :=
@@ -251,15 +267,21 @@ Fixpoint model_steps (nres : nat) (k : nat) (st : state) (l : list C18_obs) : op
 
 Definition C18_check (c : C18_case) : verdict :=
   let nres := zn (c_nres c) in
+  (* an operation that never returns (deadlock) is the most specific thing to say *)
+  if Z.leb 0 (c_hung c) then PROPFAIL (at_step "operation-never-returned" (zn (c_hung c))) else
   match win_steps (map zn (c_windows c)) 0 tr0 (c_steps c) with
   | Some cl => PROPFAIL cl
   | None =>
   match prop_steps nres (map zn (c_windows c)) 0 tr0 (fun _ => 0) None (c_steps c) with
   | Some cl => PROPFAIL cl
   | None =>
+      match c_anomalies c with
+      | z :: _ => PROPFAIL (anomaly_name z)
+      | [] =>
       match model_steps nres 0 init (c_steps c) with
       | Some w => DIVERGE w
       | None => OK
+      end
       end
   end
   end.
